@@ -52,7 +52,7 @@ Requirements for the change:
 1. It is a small source edit inside the library crates (fidget-*/src), the kind of slip a maintainer could plausibly make (off-by-one, wrong operand order, missing reset, wrong constant, swapped branch, stale cache key, dropped special case ...). It must compile.
 2. It must NOT be exposed by ordinary use at once. It should need something specific to manifest: an unusual input or special value, a particular size/shape/count, a multi-step sequence of operations, a particular interleaving or cancellation point, or two cooperating sites that each look fine alone. Prefer a change whose effect is confined to a narrow part of the input space.
 3. The existing tests of the affected crates must still pass with the change: run `cargo test -p <affected crates> --offline` (e.g. -p fidget-core -p fidget-jit; add others if you touch them) and iterate until they pass. (fidget-wgpu tests cannot run here; ignore that crate.)
-4. Write a demonstration that FAILS with your change and PASSES on the unmodified code: a single new integration-test file under the most relevant crate's `tests/` directory (e.g. fidget-jit/tests/seeded_demo.rs, using only that crate's existing dependencies/dev-dependencies), runnable with `cargo test -p <crate> --test seeded_demo --offline`. Verify both directions yourself (use `git stash` / `git stash pop` on the library edit, keeping the demo file).
+4. Write a demonstration that FAILS with your change and PASSES on the unmodified code: a single new integration-test file under the most relevant crate's `tests/` directory (e.g. fidget-jit/tests/seeded_demo.rs, using only that crate's existing dependencies/dev-dependencies), runnable with `cargo test -p <crate> --test seeded_demo --offline`. Verify both directions yourself (save the library edit with `git diff > {root}/{pid}.edit.patch`, undo it with `git apply -R`, re-apply with `git apply`; do NOT use `git stash`: the stash is shared between worktrees and other people are working in sibling worktrees).
 
 When done, leave in {root}/{pid}:
 - the library edit as uncommitted working-tree changes,
